@@ -216,6 +216,9 @@ def validate_symex(k, tier, kdir, seed, mod, native_exe, res):
     for i in range(n):
         gen = ConcGen(seed * 7919 + i, k.get('validate_doubles', 'dyadic'))
         opts = dict(k.get('symex', {}))
+        if 'symex_opts' in k:
+            import z3 as _z3
+            opts.update(k['symex_opts'](symex, _z3))
         opts['concrete_inputs'] = gen
         opts['contracts'] = None
         seq = []
